@@ -647,6 +647,9 @@ class Periph2(LiteXModule):
         self.ev = EventManager(); self.ev.tick = EventSourcePulse(name="tick"); self.ev.finalize()
         self.comb += self.ev.tick.trigger.eq(self.trig)
 
+class PinnedFirst(LiteXModule):
+    def __init__(self): self.r = CSRStorage(8, name="r"); self.s = CSRStatus(40, name="s")
+
 def build_ext(bus_standard="wishbone", csr_dw=32, paging=0x800, ordering="big", with_mem=False, cpu=None, fixed=False, irq=False):
     if cpu is None and not fixed and not irq:
         soc, m = build(bus_standard=bus_standard, csr_dw=csr_dw, paging=paging, ordering=ordering, with_mem=with_mem)       # the SoCs C14_exports.py proves against the hardware
@@ -656,7 +659,9 @@ def build_ext(bus_standard="wishbone", csr_dw=32, paging=0x800, ordering="big", 
                   with_uart=False, with_timer=True, ident="", ident_version=False)
     elab.restore_stderr()
     soc.periph = Periph(with_mem); soc.periph2 = Periph2()
-    if fixed: soc.csr.add("periph", n=9); soc.csr.add("periph2", n=3)
+    if fixed:
+        soc.csr.add("periph", n=9); soc.csr.add("periph2", n=3)
+        soc.aaa = PinnedFirst(); soc.csr.add("aaa", n=5)          # the alphabetically first bank is NOT the one at the lowest address (location 0 holds the controller)
     if irq: soc.irq.add("periph2", n=7)
     soc.add_constant("MY_CONST", 42); soc.add_config("GREETING", "Hello"); soc.add_constant("FLAG")
     soc.bus.add_region("shadow", SoCRegion(origin=0x5000_0000 if cpu else 0x0200_0000, size=0x1800, linker=True))
@@ -937,8 +942,34 @@ def c_exports(cfgname, **cfg):
                 samples=[dict(configuration=cfgname, registers=len(haddr), regions=truth_regions)])
 
 # =====================================================================================================================================
+def c_csr_h_reference():
+    """csr.h expresses every address as CSR_BASE + (region.origin - origin of the FIRST region handed to get_csr_header). A SoC whose banks are
+    all pinned to locations >= 1 (no controller): JSON/CSV must publish the hardware addresses (proved clauses); csr.h does not (listed finding,
+    native replay tools/replay_csr_h_no_loc0.py)"""
+    soc = SoCCore(P(), 100e6, cpu_type=None, integrated_sram_size=0x100, with_uart=False, with_timer=False, with_ctrl=False, ident="", ident_version=False)
+    elab.restore_stderr()
+    soc.aaa = PinnedFirst(); soc.zzz = PinnedFirst(); soc.csr.add("aaa", n=5); soc.csr.add("zzz", n=2)
+    m = wishbone.Interface(data_width=32, address_width=32, addressing="word"); soc.bus.add_master("tb", m)
+    soc.finalize(); elab.restore_stderr()
+    csr_base = soc.bus.regions["csr"].origin; paging = soc.csr.paging
+    truth = {n: csr_base + soc.csr.locs[n] * paging for n in ("aaa", "zzz")}
+    out = []
+    out.append(res("ens.csr-regions==csr base + location*paging[no bank at location 0]", "ensures", OK if {n: r.origin for n, r in soc.csr_regions.items()} == truth else VIOLATED, 0, "executed", info=str({n: hex(r.origin) for n, r in soc.csr_regions.items()})))
+    js = json.loads(export.get_csr_json(soc.csr_regions, soc.constants, soc.mem_regions))
+    out.append(res("ens.json csr_bases==hardware[no bank at location 0]", "ensures", OK if js["csr_bases"] == truth else VIOLATED, 0, "executed", info=str(js["csr_bases"])))
+    cv = {r[1]: int(r[2], 16) for r in (l.split(",") for l in export.get_csr_csv(soc.csr_regions, soc.constants, soc.mem_regions).splitlines()) if r[0] == "csr_base"}
+    out.append(res("ens.csv csr_base rows==hardware[no bank at location 0]", "ensures", OK if cv == truth else VIOLATED, 0, "executed", info=str(cv)))
+    hdr = export.get_csr_header(soc.csr_regions, soc.constants, csr_base)
+    _, _, hbase, _ = parse_csr_h(hdr, csr_base)
+    r = res("finding.csr.h region bases==hardware[no bank at location 0]", "finding-witness", PROVED if hbase == truth else VIOLATED, 0, "executed (real exporter on the elaborated SoC); native replay with bus accesses: tools/replay_csr_h_no_loc0.py",
+            info=f"csr.h {({n: hex(v) for n, v in hbase.items()})} hardware {({n: hex(v) for n, v in truth.items()})}")
+    r["what"] = "get_csr_header computes offsets relative to the first region's origin instead of the CSR base: with no bank at location 0 every CSR_*_BASE/_ADDR and accessor in csr.h is low by (lowest location)*paging, while JSON/CSV are right"
+    r["replay"] = "tools/replay_csr_h_no_loc0.py"
+    out.append(r)
+    return dict(results=out, functions=["litex.soc.integration.export.get_csr_header (address reference)", "litex.soc.integration.soc.SoC.finalize (csr regions)"], samples=[dict(config="no bank at location 0", locs=dict(soc.csr.locs))])
+
 def cases(tier):
-    cs = [VCase("get_mem_data(dw32,little,file)", c_mem_data_proof, 32, "little"), VCase("get_mem_data(dw32,big,file)", c_mem_data_proof, 32, "big"),
+    cs = [VCase("csr.h-address-reference(no bank at location 0)", c_csr_h_reference), VCase("get_mem_data(dw32,little,file)", c_mem_data_proof, 32, "little"), VCase("get_mem_data(dw32,big,file)", c_mem_data_proof, 32, "big"),
           VCase("get_mem_data(dw64,little,file)", c_mem_data_proof, 64, "little"), VCase("get_mem_data(dw64,big,file)", c_mem_data_proof, 64, "big"),
           VCase("get_mem_data(dw128,little,file)", c_mem_data_proof, 128, "little"),
           VCase("get_mem_data(dw32,big,regions dict x1)", c_mem_data_proof, 32, "big", 1, True),
